@@ -381,6 +381,9 @@ def run(tier):
         from . import c13
         c13.h1(prog, rep)
         c13.h2_h3(prog, rep)
+        # a registration that failed must leave nothing registered (no slot, no pollfd entry): shared with C14
+        from . import c14
+        c14.register_atomic_rule(prog, rep)
     n = len(configs)
     rep.require_min("O1-take", 5 * n)
     rep.require_min("O4-mapping", 4 * n)
